@@ -454,9 +454,22 @@ def rsv_id(tenant, alloc, cell):
     return '%s/%s/%s' % (tenant, alloc, cell)
 
 
-ALLOC_NAMES = [('t1', 'dev'), ('t1', 'prod'), ('t2', 'dev'), ('t1:s', 'dev'),
-               ('t2', 'uat'), ('t3', 'qa'), ('t3', 'prod'), ('t1:s', 'uat'),
-               ('t4', 'dev'), ('t4', 'prod'), ('t5', 'dev'), ('t5', 'qa')]
+ALLOC_NAMES = [('t1', 'dev'), ('t1:s', 'dev'), ('t1', 'prod'),
+               ('t1:s', 'prod'), ('t1:s:u', 'dev'), ('t2', 'dev'),
+               ('t2:x', 'dev'), ('t2', 'uat'), ('t3', 'qa'), ('t3', 'prod'),
+               ('t3:s', 'qa'), ('t4', 'dev')]
+
+
+def related(one, two):
+    """'ten/alloc/cell' ids of the same cell whose allocations have the same
+    name and whose tenants lie on one path of the tenant tree (t1 and t1:s)."""
+    ten1, alloc1, cell1 = one.split('/')
+    ten2, alloc2, cell2 = two.split('/')
+    if (alloc1, cell1) != (alloc2, cell2) or ten1 == ten2:
+        return False
+    path1, path2 = ten1.split(':'), ten2.split(':')
+    short = min(len(path1), len(path2))
+    return path1[:short] == path2[:short]
 
 
 @st.composite
@@ -508,14 +521,26 @@ def cases(draw, max_ops=8):
 
     free_names = list(ALLOC_NAMES)
 
+    def pick_name(cell):
+        """A fresh (tenant, alloc), half of the time one whose allocation
+        has the same name as one already reserved in this cell by a parent
+        or sub tenant."""
+        twins = [
+            idx for idx, (tenant, alloc) in enumerate(free_names)
+            if any(related(rsv_id(tenant, alloc, cell), rid)
+                   for rid in model.rsv)
+        ]
+        if twins and draw(st.booleans()):
+            return free_names.pop(draw(st.sampled_from(twins)))
+        return free_names.pop(draw(st.integers(0, len(free_names) - 1)))
+
     # ---- reservations written behind the API's back ------------------------
     existing = []
     for _ in range(draw(st.integers(0, 4))):
         if not free_names:
             break
-        tenant, alloc = free_names.pop(
-            draw(st.integers(0, len(free_names) - 1)))
         cell = draw(st.sampled_from(cells))
+        tenant, alloc = pick_name(cell)
         pname = draw(st.sampled_from(part_names))
         traits = draw_traits(cell, pname)
         rid = rsv_id(tenant, alloc, cell)
@@ -584,8 +609,7 @@ def cases(draw, max_ops=8):
                 rid = draw(st.sampled_from(known))   # create over existing
                 cell = model.rsv[rid]['cell']
             elif free_names:
-                tenant, alloc = free_names.pop(
-                    draw(st.integers(0, len(free_names) - 1)))
+                tenant, alloc = pick_name(cell)
                 rid = rsv_id(tenant, alloc, cell)
             else:
                 rid = draw(st.sampled_from(known))
